@@ -178,8 +178,13 @@ class CFG:
         r = self.reachable(src, avoid_nodes=list(via), no_exc=no_exc)
         return id(dst) not in r
 
-    def dominating_tests(self, node: object, no_exc: bool = True) -> List[Tuple[ast.expr, bool]]:
-        """Labelled (test, polarity) edges that every path ENTRY -> node traverses."""
+    def dominating_tests(self, node: object, no_exc: bool = True, raw: bool = False) -> List[Tuple[ast.expr, bool]]:
+        """Labelled (test, polarity) edges that every path ENTRY -> node traverses.
+        Unless raw=True the facts are normalised: `not X` is reported as (X, flipped polarity), a true conjunction /
+        false disjunction is also reported operand by operand - so `if c: A else: B` and `if not c: B else: A` give the same facts."""
+        return self._dominating_tests_raw(node, no_exc) if raw else normalise_facts(self._dominating_tests_raw(node, no_exc))
+
+    def _dominating_tests_raw(self, node: object, no_exc: bool = True) -> List[Tuple[ast.expr, bool]]:
         out: List[Tuple[ast.expr, bool]] = []
         base = self.reachable(self.ENTRY, no_exc=no_exc)
         if id(node) not in base:
@@ -207,3 +212,32 @@ class CFG:
             return getattr(a, 'lineno', 0) < getattr(b, 'lineno', 0) or \
                 (getattr(a, 'lineno', 0) == getattr(b, 'lineno', 0) and getattr(a, 'col_offset', 0) < getattr(b, 'col_offset', 0))
         return self.dominates(sa, sb)
+
+
+def normalise_facts(facts: List[Tuple[ast.expr, bool]]) -> List[Tuple[ast.expr, bool]]:
+    out: List[Tuple[ast.expr, bool]] = []
+    todo = list(facts)
+    seen = set()
+    while todo:
+        t, pol = todo.pop(0)
+        while isinstance(t, ast.UnaryOp) and isinstance(t.op, ast.Not):
+            t, pol = t.operand, not pol
+        key = (id(t), pol)
+        if key in seen:
+            continue
+        seen.add(key)
+        out.append((t, pol))
+        if isinstance(t, ast.BoolOp):
+            if (isinstance(t.op, ast.And) and pol) or (isinstance(t.op, ast.Or) and not pol):
+                todo.extend((v, pol) for v in t.values)
+    return out
+
+
+def if_branches(n: ast.If) -> Tuple[ast.expr, List[ast.stmt], List[ast.stmt]]:
+    """(positive test, statements executed when it is true, statements executed when it is false) - `not` is peeled off."""
+    t: ast.expr = n.test
+    body, orelse = n.body, n.orelse
+    while isinstance(t, ast.UnaryOp) and isinstance(t.op, ast.Not):
+        t = t.operand
+        body, orelse = orelse, body
+    return t, body, orelse
